@@ -135,7 +135,7 @@ class Gen:
             tq, tpkg, tparent = rng.choice(others)
             if not self.k.cycles and all_units.index((tq, tpkg, tparent)) > [u[0] for u in all_units].index(q):
                 continue
-            form = rng.choice(["from", "from", "from_as", "import", "import_as", "star", "rel"])
+            form = rng.choice(["from", "from", "from_as", "import", "import_as", "star", "rel", "from_mod_as"])
             tdefs = self.defs.get(tq, []) + self.funcs.get(tq, [])
             if form in ("from", "from_as") and tdefs:
                 n = rng.choice(tdefs)
@@ -145,6 +145,16 @@ class Gen:
                 origins.setdefault(asn, []).append((tq, n))
                 if rng.random() < self.k.reexport:
                     reexports.append(asn)
+            elif form == "from_mod_as" and tparent is not None:
+                # a sub-module imported from its package under another name (and perhaps re-exported)
+                sub = tq.rsplit(".", 1)[1]
+                al = "m_" + sub.strip("_")
+                lines.append("from %s import %s as %s" % (tparent, sub, al))
+                origins.setdefault(al, []).append((tq, ""))
+                if self.defs.get(tq):
+                    imported.append(al + "." + rng.choice(self.defs[tq]))
+                if ispkg and rng.random() < self.k.reexport * 1.5:
+                    reexports.append(al)
             elif form == "import":
                 lines.append("import %s" % tq)
                 if self.defs.get(tq):
